@@ -136,6 +136,18 @@ class Sched:
         self.harness_exc = None
         self.stall = {}  # task id -> until time (stall fault)
         self.pct_changes = None
+        # per-process working directory (off by default): the one real cwd follows the task that holds the baton
+        self.cwd_model = False
+        self.cwd_now = None
+        self.real_chdir = None
+
+    def _enter(self, t):
+        """t has just been given the baton"""
+        if self.cwd_model and t.proc is not None:
+            cwd = getattr(t.proc, "cwd", None)
+            if cwd is not None and cwd != self.cwd_now:
+                self.real_chdir(cwd)
+                self.cwd_now = cwd
 
     # ---- labels -------------------------------------------------------
     def label(self, kind):
@@ -173,6 +185,7 @@ class Sched:
         try:
             if self.teardown:
                 return
+            self._enter(t)
             self._check_pending(t)
             t.func(*t.args)
         except TaskKilled:
@@ -298,6 +311,7 @@ class Sched:
             cur._wake.acquire()
             if self.teardown:
                 raise TaskKilled()
+            self._enter(cur)
         e = cur.pending_exc
         if e is not None:
             cur.pending_exc = None
